@@ -6,8 +6,8 @@
 //
 // Every point operation is the chord-and-tangent rule spelled out case by case
 // (identity, inverse pair, doubling, generic); nothing is optimised except a
-// lazily built table of the doublings of the base point used by BaseMult,
-// which is cross-checked against the plain double-and-add ScalarMult by the
+// lazily built fixed-window table of multiples of the base point used by
+// BaseMult, which is cross-checked against the plain double-and-add ScalarMult by the
 // C13 refcheck unit.
 package wcurve
 
@@ -35,7 +35,7 @@ type Curve struct {
 	ByteLen int      // bytes of one GF(p) coordinate
 
 	once sync.Once
-	dbl  []Point // dbl[i] = [2^i]G
+	win  [][15]Point // win[i][d-1] = [d*16^i]G
 }
 
 func (c *Curve) Infinity() Point { return Point{Inf: true} }
@@ -120,20 +120,28 @@ func (c *Curve) ScalarMult(k *big.Int, P Point) Point {
 	return R
 }
 
-// BaseMult returns [k mod N]G using the table of doublings of G.
+// BaseMult returns [k mod N]G with a fixed 4-bit window: the table holds
+// [d*16^i]G for d = 1..15 (built with Add and Double only), and the result is
+// the sum of one table entry per non-zero nibble of k mod N.
 func (c *Curve) BaseMult(k *big.Int) Point {
 	c.once.Do(func() {
-		c.dbl = make([]Point, c.N.BitLen())
-		c.dbl[0] = c.G
-		for i := 1; i < len(c.dbl); i++ {
-			c.dbl[i] = c.Double(c.dbl[i-1])
+		n := (c.N.BitLen() + 3) / 4
+		c.win = make([][15]Point, n)
+		base := c.G
+		for i := 0; i < n; i++ {
+			c.win[i][0] = base
+			for d := 1; d < 15; d++ {
+				c.win[i][d] = c.Add(c.win[i][d-1], base)
+			}
+			base = c.Double(c.Double(c.Double(c.Double(base))))
 		}
 	})
 	kk := new(big.Int).Mod(k, c.N)
 	R := c.Infinity()
-	for i := 0; i < kk.BitLen(); i++ {
-		if kk.Bit(i) == 1 {
-			R = c.Add(R, c.dbl[i])
+	for i := 0; i*4 < kk.BitLen(); i++ {
+		d := kk.Bit(4*i) | kk.Bit(4*i+1)<<1 | kk.Bit(4*i+2)<<2 | kk.Bit(4*i+3)<<3
+		if d != 0 {
+			R = c.Add(R, c.win[i][d-1])
 		}
 	}
 	return R
